@@ -1215,7 +1215,11 @@ func TestVerifC17Cluster(t *testing.T) {
 			continue
 		}
 		if obs == nil {
-			out.count("raft_entry_not_delivered_to_removed_peer")
+			if term == "setup" {
+				out.count("raft_rig_setup_failed")
+			} else {
+				out.count("raft_entry_not_delivered_to_removed_peer")
+			}
 			continue
 		}
 		out.count("kind_" + c.Kind)
